@@ -331,7 +331,7 @@ func init() {
 	})
 	register(&Rule{
 		Name:     "NOGOQUOTE",
-		Doc:      "JSON text is never produced with Go-syntax quoting: no function of the library calls strconv.Quote / AppendQuote / QuoteToASCII / AppendQuoteToASCII (they write \\x7f, \\a, \\v and \\U0001f600 escapes, none of which is JSON; json.EncodeString is the quoter). Expected count zero; the control keeps the matcher alive",
+		Doc:      "JSON text is never produced with Go-syntax quoting: no function of the library writes out text quoted by strconv.Quote / AppendQuote / QuoteToASCII / AppendQuoteToASCII — the Append forms, or a Quote result that is converted to bytes, appended or returned; a Quote inside an error message is not output — (they write \\x7f, \\a, \\v and \\U0001f600 escapes, none of which is JSON; json.EncodeString is the quoter). Expected count zero; the control keeps the matcher alive",
 		Configs:  "NP",
 		Floor:    map[string]int{"N": 0, "P": 0},
 		Controls: 1,
@@ -432,6 +432,28 @@ func runNoGoQuote(rc *RuleCtx) {
 				}
 				switch n := strconvCallee(c); n {
 				case "Quote", "AppendQuote", "QuoteToASCII", "AppendQuoteToASCII", "QuoteToGraphic", "AppendQuoteToGraphic":
+					// quoting for an error text or a log line is harmless: only text that is WRITTEN OUT counts —
+					// the Append* forms, or a Quote* result that reaches append / a []byte conversion
+					if !strings.HasPrefix(n, "Append") {
+						written := false
+						if c.Referrers() != nil {
+							for _, r := range *c.Referrers() {
+								switch x := r.(type) {
+								case *ssa.Convert:
+									written = true
+								case *ssa.Call:
+									if bi, ok := x.Call.Value.(*ssa.Builtin); ok && bi.Name() == "append" {
+										written = true
+									}
+								case *ssa.Return:
+									written = true
+								}
+							}
+						}
+						if !written {
+							continue
+						}
+					}
 					rc.Examined++
 					rc.bad(fn, "strconv."+n, c.Pos(), "Go-syntax quoting (\\x.., \\a, \\v, \\U........) is not JSON: a key or value with a control character, DEL or invalid UTF-8 yields a malformed document with a nil error")
 				}
